@@ -165,12 +165,121 @@ def scan_balance(ctx, key, paths, body, param, succ, fail, all_returns=None):
                   "%s has a return that is neither `true` nor `false`" % key, fn_span(body), nontrivial=False)
 
 
+def expansion_normal_form(ctx, body, paths):
+    """D1/D2/D3 on the normal form of alternate_match, whatever its spelling (for-loop with `return true`, or `.any(..)`; split_at / slicing /
+    split_once for the pieces):
+        answer = ANY alternative a in X.split(',') :  Pattern::new(format!("{}{}{}", first, a, last)) is Ok(pat)  and  pat.matches(pkg)
+        first  = pattern[.. i]           i = position of the RIGHT-MOST '{'           (rfind)
+        X      = the text strictly between that '{' and the FIRST '}' after it        (find on the remainder)
+        last   = the text after that '}'
+    Returns True when the function was recognised in this form and judged (verdicts recorded), False when it is not in this form."""
+    fx = ctx.fx
+    q = element_test(ctx, AM, paths)
+    if q is None or q["kind"] != "any":
+        return False
+    coll_ = strip_refs(q["coll"])
+    if not (is_call(coll_, "str>::split") and len(call_args(coll_)) == 2):
+        return False
+    # one compile call per alternative, on a three-piece format
+    news = set()
+    for a in q["alts"]:
+        for t in [x for x, _ in a["facts"]] + ([a["value"]] if isinstance(a["value"], tuple) else []):
+            for n in find_calls(t, NEW):
+                news.add(n)
+    if len(news) != 1:
+        return False
+    N = next(iter(news))
+    an = find_calls(N, "Arguments::new")
+    site = fmt_site_for_call(fx, body, an[0][4]) if an else None
+    args = fmt_call_args(an[0]) if an else []
+    if not (site and len(args) == 3):
+        return False
+    first, mid, last = [x[1] for x in args]
+    sf, sx, sl = substr(first), substr(call_args(coll_)[0]), substr(last)
+    if sf is None or sx is None or sl is None:
+        return False
+    S = ("param", 1)
+    # ---- D1: which braces are paired
+    rx, rl = substr(sx[0]), substr(sl[0])
+    # remainder = pattern[i + k ..] with i = rfind('{'), k = 0 (remainder starts at the brace) or 1 (right after it)
+    def remainder(r):
+        return r is not None and r[0] == S and isinstance(r[1], tuple) and r[1][0] in ("rfind", "find") and r[1][1] == "{" and r[1][2] in (0, 1) and r[2] == LEN
+    ok_rest = remainder(rx) and remainder(rl) and rx == rl
+    ctx.check(ok_rest, "D1-BRACE-PAIR", AM, "remainder", "the '}' is searched in the remainder of the pattern after a '{'",
+              "the alternatives / suffix are cut from %s and %s, not from the remainder of the pattern after a '{'" % (term_str(sx[0])[:80], term_str(sl[0])[:80]), fn_span(body))
+    if not ok_rest:
+        return True
+    k = rx[1][2]
+    ctx.check(rx[1][0] == "rfind", "D1-BRACE-PAIR", AM, "open-brace-is-rightmost", "the '{' paired with find('}') is the right-most one",
+              "a '{' that is not the right-most one (found with %s) is paired with the first '}' after it: an outer group is then cut at an inner '}' and split on the nested group's commas, "
+              "so e.g. {a{b,c},d}-1.0 matches ad-1.0" % rx[1][0], fn_span(body))
+    first_close = isinstance(sx[2], tuple) and sx[2][0] == "find" and isinstance(sl[1], tuple) and sl[1][0] == "find"
+    ctx.check(first_close, "D1-BRACE-PAIR", AM, "close-brace-is-first-after", "the '}' paired with that '{' is the first one after it",
+              "the group is closed at a '}' that is not the first one after its '{' (found with %s): text of a later group is then taken for alternatives" % (sx[2][0] if isinstance(sx[2], tuple) else sx[2],), fn_span(body))
+    okf = sf == (S, ZERO, (rx[1][0], "{", 0))
+    okx = sx[1] == (("const", 1) if k == 0 else ZERO) and sx[2] == ("find", "}", 0)
+    okl = sl[1] == ("find", "}", 1) and sl[2] == LEN
+    okm = strip_refs(mid) == q["elem"] or (isinstance(strip_refs(mid), tuple) and strip_refs(mid)[0] == "deref" and strip_refs(strip_refs(mid)[1]) == q["elem"])
+    okc = const_char(call_args(coll_)[1]) == ","
+    tmpl = fmt_template(site)
+    # ---- D2: the verdict per alternative
+    okv = True
+    skip_ok = False
+    why = ""
+    payload = ("field", ("downcast", N, "Ok"), 0, "0")
+
+    def is_matches(t):
+        t = strip_refs(t)
+        return is_call(t, "pattern::Pattern::matches") and len(call_args(t)) == 2 and strip_refs(call_args(t)[1]) == ("param", 2) and \
+            isinstance(strip_refs(call_args(t)[0]), tuple) and strip_refs(call_args(t)[0])[:3] == payload[:3]
+    for a in q["alts"]:
+        dn = [f for t, f in a["facts"] if t == ("discr", N)]
+        if not dn:
+            okv, why = False, "an alternative is decided without looking at whether its expansion compiled"
+            continue
+        compiled = dn[-1] == ("eq", 0)
+        ms = [(t, f) for t, f in a["facts"] if is_matches(t)]
+        if not compiled:
+            if a["value"] is False:
+                skip_ok = True
+            else:
+                okv, why = False, "an expansion that does not compile makes the answer %s" % (term_str(a["value"])[:60] if isinstance(a["value"], tuple) else a["value"])
+        elif isinstance(a["value"], tuple):
+            if not is_matches(a["value"]):
+                okv, why = False, "a compiled expansion is judged by %s, not by matches(expansion, pkg)" % term_str(a["value"])[:80]
+        else:
+            if not ms or (ms[-1][1] == ("eq", True)) != a["value"]:
+                okv, why = False, "a compiled expansion yields %s %s" % (a["value"], "without" if not ms else "against") + " matches(expansion, pkg)"
+    pieces = okf and okx and okl and okm and okc and tmpl == "{0}{1}{2}"
+    ctx.check(okv and pieces, "D2-EXPANSION", AM, "true-path-0", "true only via matches(Pattern::new(prefix + alternative + suffix)) for an alternative of split(',') (%s form)" % q["form"],
+              "alternate_match answers true on a path where %s" % (why or "pieces: prefix ok=%s alternative ok=%s (element itself=%s, split on ','=%s) suffix ok=%s template=%s" % (okf, okx, okm, okc, okl, tmpl)), fn_span(body))
+    rets = ret_paths(paths)
+    if q["form"] == "combinator":
+        others = [p for p in rets if not is_call(strip_refs(p.end[1]), "::any")]
+        quant = [p for p in rets if is_call(strip_refs(p.end[1]), "::any")]
+        okq = len(quant) >= 1
+    else:
+        others = [p for p in rets if const_of(p.end[1]) is not True]
+        okq = True
+    ctx.check(okq and bool(others) and all(const_of(p.end[1]) is False for p in others), "D2-FALLTHROUGH", AM, "otherwise-false", "every other exit returns false",
+              "alternate_match has an exit that returns neither the verdict over the expansions nor false", fn_span(body), nontrivial=False)
+    unw = [t["func"]["path"] for k_ in [AM] + [k2 for k2 in fx.fns if k2.startswith(AM + "::{closure")] for bb, t in ctx.body(k_).calls()
+           if mir.norm_path(t["func"]["path"]).split("::")[-1] in ("unwrap", "expect") and "Result" in t["func"]["path"]]
+    ctx.check(not unw and skip_ok and okv, "D3-SKIP-INVALID", AM, "invalid-expansion-skipped", "an expansion that fails to compile is skipped",
+              "an invalid expansion is unwrapped (%s) or is not simply skipped" % unw, fn_span(body))
+    ctx.floor("D1-BRACE-PAIR", AM, "find('}') sites", 1, 1)
+    ctx.floor("D2-EXPANSION", AM, "true-returning paths", 1, 1)
+    return True
+
+
 def run(ctx):
     fx = ctx.fx
     paths = ctx.paths(AM)
     body = ctx.body(AM)
-    if paths:
-        # ---- D1
+    if paths and expansion_normal_form(ctx, body, paths):
+        pass
+    elif paths:
+        # ---- D1 (spellings the normal form does not cover, e.g. the right-most '{' taken from match_indices().last())
         finds = {}
         for p in paths:
             for s in [x for c in p.conds() for x in subterms(c.term)] + [x for e in p.events if e.kind == "call" for a in e.args for x in subterms(a)]:
